@@ -1,11 +1,11 @@
 #!/bin/sh
 # usage: tools/run_all.sh [quick|thorough] [ids...]   - runs the registered checks one after the other, prints exit code and wall time
 tier=${1:-quick}; shift
-ids=${@:-C01 C02 C03 C04 C05 C06 C08 C09 C10 C11 C12 C13 C14 C15 C16 C17 C19 C20}
+ids=${@:-C01 C02 C03 C04 C05 C06 C08 C09 C10 C11 C12 C13 C14 C15 C16 C17 C18 C19 C20}
 cd /verif
 for id in $ids; do
   s=$(date +%s)
-  ./check $id --tier $tier > /tmp/runall_$id.log 2>&1; rc=$?
+  ./check $id --tier $tier > ${RUNALL_LOG:-/tmp}/runall_${tier}_$id.log 2>&1; rc=$?
   e=$(date +%s)
-  echo "$id exit=$rc wall=$((e-s))s $(grep -c '^VIOLATION' /tmp/runall_$id.log) violations $(grep -c '^UNDECIDED' /tmp/runall_$id.log) undecided $(grep -c '^KNOWN-FINDING' /tmp/runall_$id.log) known"
+  echo "$id exit=$rc wall=$((e-s))s $(grep -c '^VIOLATION' ${RUNALL_LOG:-/tmp}/runall_${tier}_$id.log) violations $(grep -c '^UNDECIDED' ${RUNALL_LOG:-/tmp}/runall_${tier}_$id.log) undecided $(grep -c '^KNOWN-FINDING' ${RUNALL_LOG:-/tmp}/runall_${tier}_$id.log) known"
 done
